@@ -173,6 +173,97 @@ fn main() {
             let q = reduce::reduce(&p, &bad, 400);
             let _ = writeln!(out, "{}", cmodel::print_program(&q));
         }
+        "replay" => {
+            // vmon replay <ID> <file> : re-run the case a replay file records; exit 1 if it still violates
+            let mon = monitor(&args[2]).expect("unknown property");
+            let text = std::fs::read_to_string(&args[3]).expect("replay file");
+            let v: serde_json::Value = serde_json::from_str(&text).expect("replay json");
+            let (kind, idx) = match (v["case_kind"].as_str(), v["case_idx"].as_u64()) {
+                (Some(k), Some(i)) => (k.to_string(), i),
+                _ => {
+                    println!("INCONCLUSIVE property={} reason=replay file has no case coordinates", args[2]);
+                    std::process::exit(2);
+                }
+            };
+            install_panic_hook();
+            let r = mon.run_case(&kind, idx);
+            println!("replay of {} case {}:{} -> {}", args[2], kind, idx, r.class);
+            let known = framework::load_known();
+            let mut rc = 0;
+            for w in &r.violations {
+                if known.iter().any(|k| k.property == args[2] && k.status == "known" && k.signature == w.signature) {
+                    println!("KNOWN-FINDING: property={} {}", args[2], w.signature);
+                    continue;
+                }
+                println!("VIOLATION property={} replay={}\n{}", args[2], args[3], w.summary);
+                rc = 1;
+            }
+            if rc == 0 {
+                println!("no violation on the current tree");
+            }
+            std::process::exit(rc);
+        }
+        "reduce17" => {
+            // development: vmon reduce17 <kind> <idx> [zp]: shrink a C17 violation (zp: all variables in zero page)
+            install_panic_hook();
+            let _keep = silence_stdio();
+            let idx: u64 = args[3].parse().unwrap();
+            let (mut p, defs, tag) = mon_c17::case_program(&args[2], idx);
+            let zp = args.len() > 4;
+            let kind = args[2].clone();
+            let bad = |q: &cmodel::Program| -> bool {
+                if zp {
+                    let mut q2 = q.clone();
+                    for v in q2.vars.iter_mut() {
+                        v.mem = cmodel::MemClass::Zp;
+                    }
+                    !mon_c01::judge_program("C01", "rand", idx, &q2, tag, &[0, 1], None).violations.is_empty()
+                } else {
+                    !mon_c17::judge(&kind, idx, q, &defs, tag).violations.is_empty()
+                }
+            };
+            let mut out = _keep;
+            if !bad(&p) {
+                let _ = writeln!(out, "// not violating");
+                return;
+            }
+            p = reduce::reduce(&p, &bad, 600);
+            let r = mon_c17::judge(&kind, idx, &p, &defs, tag);
+            let _ = writeln!(out, "{}", cmodel::print_program(&p));
+            for v in &r.violations {
+                let _ = writeln!(out, "// {}\n// input {}\n{}", v.summary.lines().next().unwrap_or(""), v.replay["input"], v.replay["listing"].as_str().unwrap_or(""));
+            }
+        }
+        "c05-diff" => {
+            // development: vmon c05-diff <idx> : compile the bait on fresh threads until the output differs; print the differing lines
+            let idx: u64 = args[2].parse().unwrap();
+            let src = mon_c05::det_source(idx);
+            let _keep = silence_stdio();
+            let mut out = _keep;
+            let first = driver::compile_raw(src.as_bytes(), &driver::Opts::o(1)).1;
+            for _ in 0..64 {
+                let s2 = src.clone();
+                let other = std::thread::spawn(move || driver::compile_raw(s2.as_bytes(), &driver::Opts::o(1)).1).join().unwrap();
+                if other != first {
+                    let a = String::from_utf8_lossy(&first).to_string();
+                    let b = String::from_utf8_lossy(&other).to_string();
+                    let _ = std::fs::write("/tmp/c05a.json", &a);
+                    let _ = std::fs::write("/tmp/c05b.json", &b);
+                    let mut n = 0;
+                    for (x, y) in a.lines().zip(b.lines()) {
+                        if x != y {
+                            let _ = writeln!(out, "< {}\n> {}", x.chars().take(300).collect::<String>(), y.chars().take(300).collect::<String>());
+                            n += 1;
+                            if n > 12 {
+                                break;
+                            }
+                        }
+                    }
+                    return;
+                }
+            }
+            let _ = writeln!(out, "no difference in 64 threads");
+        }
         "one" => {
             // development: vmon one <ID> <kind> <idx> : run one case in this process, print everything
             let mon = monitor(&args[2]).expect("unknown property");
